@@ -109,6 +109,7 @@ class Pool:
         self.attempt = {}          # tid -> future of the running connection attempt
         self.transports = []       # every transport created, index = connection id
         self.handed = {}           # tid -> Connection
+        self.handed_cid = {}
         self.tasks = [None] * len(keys)
         pool = self
 
@@ -207,11 +208,7 @@ class Pool:
                         break
         elif op in "rx":
             t = int(arg)
-            c = self.handed.get(t)
-            if c is None:
-                task = self.tasks[t]
-                if task is not None and task.done() and not task.cancelled() and task.exception() is None:
-                    c = self.handed[t] = task.result()
+            c = self.conn_of(t)
             if c is not None and c._protocol is not None:
                 if op == "r":
                     c.release()
@@ -235,10 +232,27 @@ class Pool:
         self._drain()
 
     # ------------------------------------------------------------------ observation
+    def _cid(self, proto):
+        for tr in self.transports:
+            if tr.proto is proto:
+                return tr.cid
+        return None
+
+    def conn_of(self, t):
+        """the Connection handed to task t (None if connect() has not returned one)"""
+        c = self.handed.get(t)
+        if c is None:
+            task = self.tasks[t]
+            if task is not None and task.done() and not task.cancelled() and task.exception() is None:
+                c = self.handed[t] = task.result()
+                self.handed_cid[t] = self._cid(c._protocol)
+        return c
+
     def task_state(self, t):
-        """one letter per task: i not spawned, s spawned (first step queued), w waiting for a slot,
-        c connection attempt in progress, h holds a connection, d released it,
-        X cancelled, T timeout, E OSError, Q 'Connector is closed', ? anything else"""
+        """i not spawned; s spawned (first step queued); w/W/V parked on a pending/woken/cancelled
+        waiter future; c/c+/c- connection attempt pending/succeeded/failed (task not resumed yet);
+        h<cid> holds connection cid; d released it; X cancelled, T timeout, E OSError,
+        Q 'Connector is closed', ?(..) anything else.  '!' = a cancellation request is pending."""
         from aiohttp.client_exceptions import ClientConnectionError
         task = self.tasks[t]
         if task is None:
@@ -248,10 +262,8 @@ class Pool:
                 return "X"
             e = task.exception()
             if e is None:
-                c = self.handed.get(t)
-                if c is None:
-                    c = self.handed[t] = task.result()
-                return "h" if c._protocol is not None else "d"
+                c = self.conn_of(t)
+                return f"h{self.handed_cid[t]}" if c._protocol is not None else "d"
             if isinstance(e, TimeoutError):
                 return "T"
             if isinstance(e, ClientConnectionError):
@@ -259,11 +271,18 @@ class Pool:
             if isinstance(e, OSError):
                 return "E"
             return "?(" + type(e).__name__ + ")"
-        if t in self.attempt:
-            return "c"
+        bang = "!" if task.cancelling() > 0 else ""
         if inspect.getcoroutinestate(task.get_coro()) == inspect.CORO_CREATED:
-            return "s"
-        return "w"
+            return "s" + bang
+        if t in self.attempt:
+            f = self.attempt[t]
+            if not f.done() or f.cancelled():
+                return "c" + bang
+            return ("c-" if f.exception() is not None else "c+") + bang
+        f = task._fut_waiter
+        if f is None:
+            return "?(running)"
+        return ("w" if not f.done() else "V" if f.cancelled() else "W") + bang
 
     def project(self):
         """what the Lean model prints too (lean/Driver/C07.lean `showSt`)"""
@@ -271,13 +290,48 @@ class Pool:
         H = range(self.nkeys)
 
         def per(d):
-            return ".".join(str(len(d.get(self.key_of_host.get(k), ())) if self.key_of_host.get(k) in d else 0) for k in H)
+            return ".".join(str(len(d[self.key_of_host[k]]) if self.key_of_host.get(k) in d else 0) for k in H)
         ph = sum(1 for p in c._acquired if isinstance(p, self.mod._TransportPlaceholder))
         open_tr = "".join("1" if not tr.closing else "0" for tr in self.transports) or "-"
-        return (f"acq={len(c._acquired)} ph={ph} host={per(c._acquired_per_host)} wait={per(c._waiters)} "
-                f"idle={per(c._conns)} ready={'.'.join(map(str, self.ready())) or '-'} "
-                f"tasks={''.join(self.task_state(t) for t in range(len(self.tasks)))} open={open_tr} "
+        fut_owner = {}
+        for t, task in enumerate(self.tasks):
+            if task is not None and not task.done() and task._fut_waiter is not None:
+                fut_owner[id(task._fut_waiter)] = t
+        wq = ";".join(f"{_host_index(key)}:" + (".".join(str(fut_owner.get(id(f), "?")) for f in q) or "-")
+                      for key, q in c._waiters.items()) or "-"
+        idle = "/".join((".".join(str(self._cid(p)) for p, _ in c._conns[self.key_of_host[k]])
+                         if self.key_of_host.get(k) in c._conns else "") or "-" for k in H)
+        return (f"acq={len(c._acquired)} ph={ph} host={per(c._acquired_per_host)} wq={wq} "
+                f"idle={idle} ready={'.'.join(map(str, self.ready())) or '-'} "
+                f"tasks={','.join(self.task_state(t) for t in range(len(self.tasks)))} open={open_tr} "
                 f"closed={'1' if c._closed else '0'}")
+
+    def enabled(self):
+        """labels that can change the state now (used by the generators)"""
+        out = []
+        for t in range(len(self.tasks)):
+            st = self.task_state(t)
+            if st == "i":
+                out.append(f"s{t}")
+            elif st[0] == "s":
+                out.append(f"c{t}")
+            elif st[0] in "wWV":
+                out += [f"c{t}", f"m{t}"]
+            elif st[0] == "c":
+                out += [f"c{t}", f"m{t}"]
+                if st in ("c",):
+                    out += [f"o{t}", f"f{t}"]
+            elif st[0] == "h":
+                out += [f"r{t}", f"x{t}"]
+        if self.loop._ready:
+            out.append("k")
+        for q in self.conn._conns.values():
+            for p, _ in q:
+                if p.is_connected():
+                    out.append(f"l{self._cid(p)}")
+        if not self.conn._closed:
+            out.append("C")
+        return out
 
     # ------------------------------------------------------------------ oracle side facts
     def in_use(self):
@@ -286,13 +340,10 @@ class Pool:
         per = [0] * self.nkeys
         for t in self.attempt:
             per[self.keys[t]] += 1
-        for t, task in enumerate(self.tasks):
-            if task is not None and task.done() and not task.cancelled() and task.exception() is None:
-                c = self.handed.get(t)
-                if c is None:
-                    c = self.handed[t] = task.result()
-                if c._protocol is not None and not c._protocol.transport is None and not c._protocol.transport.is_closing():
-                    per[self.keys[t]] += 1
+        for t in range(len(self.tasks)):
+            c = self.conn_of(t)
+            if c is not None and c._protocol is not None and c._protocol.is_connected():
+                per[self.keys[t]] += 1
         return sum(per), per
 
     def dispose(self):
